@@ -68,7 +68,7 @@ Proof.
   - eexists; eexists; reflexivity.
 Qed.
 
-Lemma ex_program_ok : PP.program_ok Dom.id_order (fun l => l) ex_program.
+Lemma ex_program_ok : PP.program_ok ex_program.
 Proof.
   split; [|constructor]. constructor; [|constructor].
   split; [exact ex_wf_template|]. split; [reflexivity|].
